@@ -170,7 +170,10 @@ func generateMore(suite string, seed uint64, i int, r *rng, id string, g gp) *Ca
 		if len(edges) == 0 {
 			edges = [][]string{{"a", "b"}}
 		}
-		cfg := genCfg(r, cp{p1: []int{0, 1}, p2: []int{0, 1}, p4: []int{0, 1, 2}, p5: []int{0}, nsPos: true, wPos: false, trace: suite == "c12", mon: true}, usedNames(edges))
+		cfg := genCfg(r, cp{p1: []int{0, 1}, p2: []int{0, 1}, p4: []int{0, 1, 2, 3}, p5: []int{0}, nsPos: true, wPos: false, trace: suite == "c12", mon: true}, usedNames(edges))
+		if suite == "c12-deep" && cfg.P4 == 3 {
+			cfg.P4 = 0
+		}
 		c := lay(cfg, edges)
 		if suite == "c12-deep" {
 			cfg.P2 = 0
@@ -185,7 +188,7 @@ func generateMore(suite string, seed uint64, i int, r *rng, id string, g gp) *Ca
 			g.maxN = 40
 		}
 		edges, names := genGraph(r, g)
-		cfg := genCfg(r, cp{p1: []int{0, 1}, p2: []int{0, 1}, p4: []int{0, 1, 2}, p5: []int{0}, nsPos: true, trace: true, mon: true}, names)
+		cfg := genCfg(r, cp{p1: []int{0, 1}, p2: []int{0, 1}, p4: []int{0, 1, 2, 3}, p5: []int{0}, nsPos: true, trace: true, mon: true}, names)
 		return lay(cfg, edges)
 	case "c14": // depth-first breaker on cyclic multigraphs; both breakers on acyclic ones
 		g.kind = []int{0, 4, 1, 1}[r.intn(4)]
